@@ -30,7 +30,7 @@ def _rem_constraints(zf, param_sym):
     return out
 
 
-def frame_of(ctx, cfg, path, param, _depth=0):
+def frame_of(ctx, cfg, path, param, _depth=0, cargs=None):
     """(lo, hi, mods) of accepted lengths of `param` for function `path`, or None if the function has no accept site."""
     prog, eng, za = ctx.prog(cfg), ctx.eng(cfg), ctx.zone(cfg)
     body = prog.bodies[path]
@@ -48,6 +48,20 @@ def frame_of(ctx, cfg, path, param, _depth=0):
     for (bi, kind, extra) in accs:
         lo = zf.lower_bound((sym, 0), bi)
         hi = zf.upper_bound((sym, 0), bi)
+        # a bound by the function's own const generic parameter (`<[u8; N]>::try_from(slice)`), instantiated with this caller's literal
+        if cargs and len(cargs) == 1 and str(cargs[0]).isdigit():
+            import re as _re
+            generic = set()
+            for loc in body.locals:
+                generic |= set(_re.findall(r'; ([A-Z][A-Z0-9_]*)\]', loc.get('ty', '')))      # `[u8; N]` with N not yet a number
+            gsyms = {t_[0] for f_ in zf.facts_at(bi) for t_ in f_ if t_ is not None and t_[0] and t_[0].startswith('N:') and t_[0][2:] in generic}
+            if len(gsyms) == 1:
+                g = next(iter(gsyms))
+                v = int(cargs[0])
+                if zf.prove_le((g, 0), (sym, 0), bi):
+                    lo = max(lo, v)
+                if zf.prove_le((sym, 0), (g, 0), bi):
+                    hi = min(hi, v)
         mods = set()
         for (sb, eq_edge, c, m) in _rem_constraints(zf, sym):
             if zf._edge_dominates(sb, eq_edge, bi):
@@ -79,7 +93,7 @@ def frame_of(ctx, cfg, path, param, _depth=0):
                 if not cbody.local_ty(ai + 1).startswith('&['):
                     continue
                 # only if the accept site depends on the callee's success (result consumed by `?` / returned)
-                sub = frame_of(ctx, cfg, tgt, pname, _depth + 1)
+                sub = frame_of(ctx, cfg, tgt, pname, _depth + 1, cargs=t.get('cargs'))
                 if sub is None:
                     continue
                 slo, shi, smods = sub
